@@ -58,7 +58,10 @@ def count_nested(df, nested, by=None, join=True) -> NestedFrame:
         counts.name = f"n_{nested}"  # update name directly (rename causes issues downstream)
     else:
         # this may be able to be sped up using tolists() as well
-        counts = df[nested].apply(lambda x: x[by].value_counts(sort=False))
+        # a missing nested value has no records: it gets an empty count instead of failing
+        counts = df[nested].apply(
+            lambda x: x[by].value_counts(sort=False) if isinstance(x, pd.DataFrame) else pd.Series(dtype="int64")
+        )
         counts = counts.rename(columns={colname: f"n_{nested}_{colname}" for colname in counts.columns})
         counts = counts.reindex(sorted(counts.columns), axis=1)
     if join:
